@@ -7,7 +7,7 @@ from gv.model import dbutil
 
 ID = "C11"
 RULE = (
-    "One memoised 19-feature file database (thorough: also a 33-feature one = the 19 plus 14 shifted copies) with mixed-case / "
+    "One memoised 20-feature file database (thorough: also a 34-feature one = the 20 plus 14 shifted copies) with mixed-case / "
     "non-ASCII seqids, numeric-looking scores, ties in every column, '.' coordinates, extra columns and featuretypes differing only by "
     "case ('CDS'/'cds'), by an SQL-wildcard position ('five-prime-UTR') or holding a quote (5'UTR). Part 'query' (shards = database x "
     "method {all_features, features_of_type} x featuretype (12 forms: None, str, tuple, list, absent type, a 662-entry list, 'CDS', the "
@@ -51,6 +51,8 @@ ROWS = [
     ("chr2", "a", "cds", "8", "9", "1", "+", "0", "ID=c3", []),
     ("chr2", "a", "five-prime-UTR", "3", "4", ".", "+", ".", "ID=u1", []),
     ("chr2", "B", "5'UTR", "5", "6", ".", "-", ".", "ID=u2", []),
+    # the placeholder '.' as a feature type: a value like any other
+    ("chr2", "a", ".", "11", "12", ".", "+", ".", "ID=d1", []),
 ]
 
 
@@ -81,7 +83,8 @@ def order_options(tier="quick"):
 
 LONG_FT = ["t%03d" % i for i in range(300)] + ["exon"] + ["u%03d" % i for i in range(320)] + ["gene"] + ["v%03d" % i for i in range(40)]
 FTS = [None, "exon", ("exon", "gene"), ["CDS", "mRNA", "exon"], "nosuchtype", LONG_FT,
-       "CDS", "five_prime_UTR", "5'UTR", ["5'UTR", "exon"], ("cds", "%"), {"gene", "5'UTR"}]
+       "CDS", "five_prime_UTR", "5'UTR", ["5'UTR", "exon"], ("cds", "%"), {"gene", "5'UTR"},
+       ["exon", "gene", "exon"], ".", ("CDS", "CDS")]
 STRANDS = [None, "+", "-", "."]
 
 
@@ -135,7 +138,7 @@ def body(ch, ctx):
     which, method, fi, si = ctx.shard
     db, model = get_db(ctx, which)
     if method == "counts":
-        what = ch.choose("what", ["count:%s" % t for t in (None, "gene", "exon", "CDS", "cds", "five_prime_UTR", "5'UTR", "mRNA", "nosuchtype")] + ["featuretypes", "seqids", "fullscan", "interleaved"])
+        what = ch.choose("what", ["count:%s" % t for t in (None, "gene", "exon", "CDS", "cds", "five_prime_UTR", "5'UTR", "mRNA", "nosuchtype", ".")] + ["featuretypes", "seqids", "fullscan", "interleaved"])
         ctx.nontrivial()
         ctx.outcome((which, what))
         ctx.sample(lambda: dict(db=which, check=what))
